@@ -75,7 +75,8 @@ type Case struct {
 	// kernel:acc cases
 	KAcc *AccCase `json:"kacc,omitempty"`
 	// kernel:coalesce cases
-	KCo *CoCase `json:"kco,omitempty"`
+	KCo *CoCase    `json:"kco,omitempty"`
+	KSl *SliceCase `json:"ksl,omitempty"`
 }
 
 // AccCase: one accumulator reused over a sequence of steps (Reset(arg), then the members).
